@@ -49,9 +49,47 @@ theorem checkShape_single {a b : Int} (hb : b ≠ -1) (h : checkShape [a] [b] = 
   · exact absurd h hb
   · exact h
 
+/-- the generated body of `thresh.l1_proj` (`Gen.ProxBody.l1projWith`): whenever it returns, the result carries the
+    input's shape — all ranks, any entry type, any `sort` (both `return` statements reshape to the recorded shape) -/
+theorem l1projWith_shape {α β : Type} [Zero α] [One α] [Add α] [Sub α] [Mul α] [Div α] [Neg α] [NatCast α] [LT α]
+    [DecidableLT α] [DecidableEq α] (absf : β → α) (soft : α → β → β) (sort : List α → List α) (eps : α)
+    (x out : Arr β) (h : Gen.ProxBody.l1projWith absf soft sort eps x = some out) : out.shape = x.shape := by
+  unfold Gen.ProxBody.l1projWith at h
+  simp only [Arr.ravel, Arr.reshape, Arr.mapData] at h
+  by_cases hc : lsum (List.map absf x.data) < eps
+  · simp only [hc, ↓reduceIte] at h; cases h; rfl
+  · simp only [hc, ↓reduceIte] at h
+    simp only [Option.bind_eq_some_iff, Option.map_eq_some_iff] at h
+    obtain ⟨_, _, _, _, rfl⟩ := h
+    rfl
+
 /-- **`l1_proj` keeps the input's shape on both paths** (feasible early return and thresholded). -/
-theorem l1proj_shape (eps : Rat) (x out : Tens) (h : l1projQ eps x = .ok out) : out.shape = x.shape :=
-  withShape_ok h
+theorem l1proj_shape (eps : Rat) (x out : Tens) (h : l1projQ eps x = .ok out) : out.shape = x.shape := by
+  unfold l1projQ at h
+  cases hm : moduli x.data with
+  | error e => rw [hm] at h; cases h
+  | ok mods =>
+    rw [hm] at h
+    simp only [bind, Except.bind] at h
+    split at h
+    · cases h
+    · rename_i o ho
+      cases h
+      exact l1projWith_shape _ _ _ _ _ _ ho
+
+/-- the model's shape guard IS the generated `Prox._check_shape` / `Prox.__call__` -/
+theorem checkShape_is_generated (a b : List Int) : checkShape a b = Gen.ProxBody.checkShapeGen a b := by
+  unfold checkShape Gen.ProxBody.checkShapeGen
+  congr 1
+  funext ⟨i1, i2⟩
+  simp only [bne, Bool.not_and, Bool.not_not]
+  rw [Bool.eq_iff_iff]; simp
+
+theorem guard_is_generated (sh : List Int) (x : Tens) (r : Except String Tens) :
+    guard sh x r = Gen.ProxBody.callWith Tens.shape sh (fun (_ : Unit) _ => r) () x := by
+  unfold guard Gen.ProxBody.callWith
+  simp only [checkShape_is_generated]
+  cases r <;> rfl
 
 /-- **every `_prox` wrapped by `Prox.__call__` returns the input's shape** — for every class and every
     well-formed nesting, applied to an input of the operator's own shape. -/
@@ -68,7 +106,7 @@ theorem prox_shape : ∀ (e : PExpr) (α : Rat) (x out : Tens), WF e → x.shape
   | .linfproj _ _ _, _, _, _, _, _, h => by
       obtain ⟨h, _, _⟩ := guard_ok h; simp only [prox] at h; exact withShape_ok h
   | .l1proj _ _, _, _, _, _, _, h => by
-      obtain ⟨h, _, _⟩ := guard_ok h; simp only [prox] at h; exact withShape_ok h
+      obtain ⟨h, _, _⟩ := guard_ok h; simp only [prox] at h; exact l1proj_shape _ _ _ h
   | .box _ _ _, _, _, _, _, _, h => by
       obtain ⟨h, _, _⟩ := guard_ok h; simp only [prox] at h; exact withShape_ok h
   | .l2regH sh lam y hh, α, x, out, hwf, hx, h => by
